@@ -234,6 +234,26 @@ fn const_json<'tcx>(tcx: TyCtxt<'tcx>, env: TypingEnv<'tcx>, c: &ConstOperand<'t
             val = scalar_to_j(t, si);
         }
     } else if let ty::Ref(_, inner, _) = t.kind() {
+        if let ty::Array(e, _) = inner.kind() {
+            // `&[u8; N]` literals (byte strings, format_args templates): read the pointee bytes
+            if *e == tcx.types.u8 {
+                if let Ok(cv) = c.const_.eval(tcx, env, c.span) {
+                    if let ConstValue::Scalar(rustc_middle::mir::interpret::Scalar::Ptr(ptr, _)) = cv {
+                        let (prov, offset) = ptr.prov_and_relative_offset();
+                        if let Some(rustc_middle::mir::interpret::GlobalAlloc::Memory(alloc)) =
+                            tcx.try_get_global_alloc(prov.alloc_id())
+                        {
+                            let a = alloc.inner();
+                            let start = offset.bytes() as usize;
+                            if start <= a.len() && a.provenance().ptrs().is_empty() {
+                                let bytes = a.inspect_with_uninit_and_ptr_outside_interpreter(start..a.len());
+                                val = J::Arr(bytes.iter().map(|b| J::Int(*b as i128)).collect());
+                            }
+                        }
+                    }
+                }
+            }
+        }
         if inner.is_str() || matches!(inner.kind(), ty::Slice(e) if *e == tcx.types.u8) {
             if let Ok(cv) = c.const_.eval(tcx, env, c.span) {
                 if let Some(bytes) = cv.try_get_slice_bytes_for_diagnostics(tcx) {
@@ -334,6 +354,30 @@ fn rvalue_json<'tcx>(tcx: TyCtxt<'tcx>, env: TypingEnv<'tcx>, body: &Body<'tcx>,
         }
         Rvalue::Repeat(o, _) => J::Obj(vec![("k", s("repeat")), ("o", op(o))]),
         other => J::Obj(vec![("k", s("other")), ("d", s(format!("{:?}", other)))]),
+    }
+}
+
+fn collect_strs<'tcx>(tcx: TyCtxt<'tcx>, env: TypingEnv<'tcx>, rv: &Rvalue<'tcx>, out: &mut Vec<J>) {
+    let mut ops: Vec<&Operand<'tcx>> = vec![];
+    match rv {
+        Rvalue::Use(o, ..) | Rvalue::Cast(_, o, _) | Rvalue::UnaryOp(_, o) | Rvalue::Repeat(o, _) => ops.push(o),
+        Rvalue::Aggregate(_, os) => {
+            for o in os.iter() {
+                ops.push(o)
+            }
+        }
+        _ => {}
+    }
+    for o in ops {
+        if let Operand::Constant(c) = o {
+            if let J::Arr(v) = const_json(tcx, env, c) {
+                if let (Some(J::Str(t)), Some(J::Str(x))) = (v.get(1), v.get(2)) {
+                    if t.contains("str") {
+                        out.push(J::Str(x.clone()));
+                    }
+                }
+            }
+        }
     }
 }
 
@@ -674,10 +718,40 @@ fn dump(tcx: TyCtxt<'_>) -> String {
             DefKind::Const { .. } | DefKind::AssocConst { .. } => {
                 let t = tcx.type_of(did).instantiate_identity().skip_norm_wip();
                 let v = const_value_json(tcx, did);
+                // string literals of the initialiser (e.g. system table names inside a
+                // `SystemTableDefinition::new("..")` constant that is not itself a scalar)
+                let mut strs = vec![];
+                if tcx.is_mir_available(did) || ldid.to_def_id().is_local() {
+                    if !tcx.generics_of(did).requires_monomorphization(tcx) && tcx.hir_maybe_body_owned_by(ldid).is_some() {
+                        let body = tcx.mir_for_ctfe(ldid);
+                        let env = TypingEnv::post_analysis(tcx, did);
+                        for bb in body.basic_blocks.iter() {
+                            for st in bb.statements.iter() {
+                                if let StatementKind::Assign(b) = &st.kind {
+                                    collect_strs(tcx, env, &b.1, &mut strs);
+                                }
+                            }
+                            if let TerminatorKind::Call { args, .. } = &bb.terminator().kind {
+                                for a in args.iter() {
+                                    if let Operand::Constant(c) = &a.node {
+                                        if let J::Arr(v) = const_json(tcx, env, c) {
+                                            if let Some(J::Str(x)) = v.get(2) {
+                                                if matches!(v.get(1), Some(J::Str(t)) if t.contains("str")) {
+                                                    strs.push(J::Str(x.clone()));
+                                                }
+                                            }
+                                        }
+                                    }
+                                }
+                            }
+                        }
+                    }
+                }
                 consts.push(J::Obj(vec![
                     ("p", s(tcx.def_path_str(did))),
                     ("ty", s(t.to_string())),
                     ("v", v.unwrap_or(J::Null)),
+                    ("strs", J::Arr(strs)),
                 ]));
             }
             DefKind::Impl { .. } => {
